@@ -363,6 +363,16 @@ func runC07(c *Ctx) {
 			nameClass = "bytes"
 			renameFiles(h, func(i int) string { return string(append(r.Bytes(1+r.Intn(20)), byte('0'+i))) })
 		}
+		if k%5 == 4 {
+			// the empty file name is a file name too: COM_BINLOG_DUMP with "" asks for the master's first binlog
+			nameClass = "empty-first"
+			renameFiles(h, func(i int) string {
+				if i == 1 {
+					return ""
+				}
+				return fmt.Sprintf("bin.%06d", i)
+			})
+		}
 		h.encode(c)
 		if len(h.txs) < 2 {
 			continue
